@@ -36,8 +36,61 @@ std::unique_ptr<UnsatCore> UnsatCoreBuilder::build() {
 void UnsatCoreBuilder::buildBody() {
     computeClauses();
     mapClausesToTerms();
+#ifdef OPENSMT_VERIF
+    // verification trace: the proof DAG, the leaves reached with their partition masks, the partition map, the result
+    auto const verifTerms = [](auto const & terms) {
+        std::string s = "(";
+        for (PTRef t : terms) {
+            s += std::to_string(t.x);
+            s += ' ';
+        }
+        s += ')';
+        return s;
+    };
+    if (veriftrace::on()) {
+        veriftrace::line(std::string("(core-begin ") + (config.print_cores_full() ? "1 " : "0 ") +
+                         (config.minimal_unsat_cores() ? "1)" : "0)"));
+        for (auto const & [cref, derivation] : proof.getProof()) {
+            std::string s = "(core-der " + std::to_string(cref) + " " + std::to_string(static_cast<int>(derivation.type)) + " (";
+            for (CRef premise : derivation.chain_cla) {
+                s += std::to_string(premise);
+                s += ' ';
+            }
+            veriftrace::line(s + "))");
+        }
+        for (CRef cref : clauses) {
+            auto const & partition = partitionManager.getClauseClassMask(cref);
+            std::string s = "(core-leaf " + std::to_string(cref) + " (";
+            for (unsigned bit = 0; bit < mpz_sizeinbase(partition.get_mpz_t(), 2); ++bit) {
+                if (tstbit(partition, bit)) {
+                    s += std::to_string(bit);
+                    s += ' ';
+                }
+            }
+            veriftrace::line(s + "))");
+        }
+        for (PTRef part : partitionManager.getPartitions()) {
+            veriftrace::line("(core-part " + std::to_string(part.x) + " " + std::to_string(partitionManager.getPartitionIndex(part)) +
+                             " " + logic.termToSMT2String(part) + ")");
+        }
+        veriftrace::line("(core-all " + verifTerms(allTerms) + ")");
+    }
+    vec<PTRef> verifAllTerms;
+    allTerms.copyTo(verifAllTerms);
+#endif
 
     if (not config.print_cores_full()) { partitionNamedTerms(); }
+#ifdef OPENSMT_VERIF
+    if (veriftrace::on() and not config.print_cores_full()) {
+        auto const & verifNames = solver.getTermNames();
+        std::string contains = "(";
+        for (PTRef t : verifAllTerms) {
+            contains += verifNames.contains(t) ? "1 " : "0 ";
+        }
+        veriftrace::line(std::string("(core-split ") + (verifNames.empty() ? "1 " : "0 ") + contains + ") " + verifTerms(namedTerms) + " " +
+                         verifTerms(hiddenTerms) + ")");
+    }
+#endif
 
     if (config.minimal_unsat_cores()) { minimize(); }
 }
